@@ -103,17 +103,18 @@ class PumlParser(DiagramParser):
     ) -> set[Module]:
         module_group_1 = "m1"
         module_group_2 = "m2"
-        alias_group = "alias"
+        alias_group_1 = "alias1"
+        alias_group_2 = "alias2"
 
-        component_followed_by_name_no_brackets = f"{COMPONENT_MARKER}{NON_EMPTY_WHITESPACE}{cls._named_group(module_group_1, NON_EMPTY_CHAR_OR_DIGIT)}"
+        def optional_alias(alias_group: str) -> str:
+            return f"({NON_EMPTY_WHITESPACE}{ALIAS_MARKER}{NON_EMPTY_WHITESPACE}{cls._named_group(alias_group, NON_EMPTY_STRING)})?"
+
+        component_followed_by_name_no_brackets = f"{COMPONENT_MARKER}{NON_EMPTY_WHITESPACE}{cls._named_group(module_group_1, NON_EMPTY_CHAR_OR_DIGIT)}{optional_alias(alias_group_1)}"
 
         optional_component = f"({COMPONENT_MARKER}{NON_EMPTY_WHITESPACE})?"
         component_name_in_brackets = f"{BRACKET_OPEN}{cls._named_group(module_group_2, NON_EMPTY_CHAR_OR_DIGIT_OR_WHITESPACE)}{BRACKET_CLOSE}"
-        optional_alias = f"({NON_EMPTY_WHITESPACE}{ALIAS_MARKER}{NON_EMPTY_WHITESPACE}{cls._named_group(alias_group, NON_EMPTY_STRING)})?"
 
-        optional_component_followed_by_name_in_brackets_optional_alias = (
-            f"{optional_component}{component_name_in_brackets}{optional_alias}"
-        )
+        optional_component_followed_by_name_in_brackets_optional_alias = f"{optional_component}{component_name_in_brackets}{optional_alias(alias_group_2)}"
 
         module_regex = f"{START_LINE}{component_followed_by_name_no_brackets}|{optional_component_followed_by_name_in_brackets_optional_alias}{END_LINE}"
         pattern = re.compile(module_regex, re.MULTILINE)
@@ -121,7 +122,7 @@ class PumlParser(DiagramParser):
         result = set()
         for match in re.finditer(pattern, content):
             module = match.group(module_group_1) or match.group(module_group_2)
-            alias = match.group(alias_group)
+            alias = match.group(alias_group_1) or match.group(alias_group_2)
             result.add(Module(name=module, alias=alias))
 
         return result
